@@ -124,10 +124,11 @@ def _gen_history(rng, length, first_add_after=None, fault=0.25, lean=False):
         if rng.random() < 0.7:
             hist.append(["globals", _global_fields(rng)])
         add()
-    p_add = rng.choice([0.06, 0.12, 0.2])
+    p_add = rng.choice([0.04, 0.08, 0.14])
+    max_dests = 3 if lean else 7       # every destination's whole trace is printed by Coq: keep the output small
     while len(hist) < length:
         r = rng.random()
-        if r < p_add:
+        if r < p_add and st["next_id"] < max_dests:
             add()
         elif r < p_add + 0.1:
             remove()
@@ -143,7 +144,7 @@ SHARD = 24      # cases per Coq file; the long histories are spread out, one per
 
 def gen_histories(rng, tier):
     if tier == "quick":
-        n_small, n_big, big_hi, tail, n_long = 200, 6, 1100, 30, 0
+        n_small, n_big, big_hi, tail, n_long = 230, 6, 1100, 30, 0
     else:
         n_small, n_big, big_hi, tail, n_long = 2500, 40, 3000, 200, 60
     small = [{"hist": _gen_history(rng, rng.randrange(1, 61))} for _ in range(n_small)]
